@@ -203,10 +203,10 @@ Lemma ensure_same par e :
   eobj (ensure par e) = eobj e /\ ecl (ensure par e) = ecl e /\ ename (ensure par e) = ename e
   /\ elive (ensure par e) = elive e /\ ecancel (ensure par e) = ecancel e /\ ehealthy (ensure par e) = ehealthy e
   /\ edisabled (ensure par e) = edisabled e.
-Proof. unfold ensure. destruct (edisabled e); [|destruct (eprobing e)]; simpl; repeat split; reflexivity. Qed.
+Proof. destruct e as [a b c d f g h i j]. unfold ensure. simpl. destruct h; [|destruct i]; simpl; repeat split; reflexivity. Qed.
 
 Lemma ensure_parent par e : pparent e = PEp -> par = PEp -> pparent (ensure par e) = PEp.
-Proof. intros H ->. unfold ensure. destruct (edisabled e); [|destruct (eprobing e)]; simpl; auto. Qed.
+Proof. intros H ->. destruct e as [a b c d f g h i j]. unfold ensure. simpl in *. destruct h; [|destruct i]; simpl; auto. Qed.
 
 Lemma update_ep_same o sv e :
   eobj (update_ep o sv e) = eobj e /\ ecl (update_ep o sv e) = ecl e /\ ename (update_ep o sv e) = ename e
@@ -283,7 +283,10 @@ Section Remove.
     intros Hf He Hl Hw.
     set (d := mkEp (eobj e) (ecl e) (ename e) false true (ehealthy e) (edisabled e) (eprobing e) (pparent e)).
     assert (Hd : drop_ep o want e = d).
-    { unfold drop_ep. rewrite He, Z.eqb_refl, Hl, Hw. reflexivity. }
+    { unfold drop_ep, d.
+      assert (E : (ecl e =? o) && elive e && negb (zmem (ename e) want) = true).
+      { rewrite Hl, Hw. assert (E1 : ecl e =? o = true) by lia. rewrite E1. reflexivity. }
+      rewrite E. reflexivity. }
     assert (Hu : update_ep o sv d = d) by (apply update_ep_id; right; reflexivity).
     assert (Hf' : find_ep s' eo = Some d) by (rewrite (remove_find_ep eo e Hf), Hd, Hu; reflexivity).
     assert (Hdone : ep_done s' d = true) by (unfold ep_done; simpl; apply orb_true_r).
